@@ -30,7 +30,7 @@ Definition run_model (c : case) : obs :=
           (map (fresh_result (cV c) (cC c) model_H yl) ks).
 
 Definition spec_of (c : case) (q : kcall) : res dict :=
-  get_data_spec (cV c) (cC c) model_H (table_fun (q_render q)) (table_fun (cYload c)) (mo_of c (q_sys q) (q_pv q)) (q_tree q).
+  get_data_spec (no_marker (cV c)) (cC c) model_H (table_fun (q_render q)) (table_fun (cYload c)) (mo_of c (q_sys q) (q_pv q)) (q_tree q).
 
 Definition same_dict (a b : dict) : bool := same (VDict a) (VDict b).
 
@@ -73,7 +73,8 @@ Definition holds (c : case) (o : obs) : list string := holds_steps c (cCalls c) 
 
 Definition res_wf (r : str * res val) : bool := match snd r with Ok v => wf v | Err _ => true end.
 Definition variants_eqb (a b : variants) : bool :=
-  Bool.eqb (tag_after a) (tag_after b) && Bool.eqb (rerender a) (rerender b) && Bool.eqb (empty_raises a) (empty_raises b).
+  Bool.eqb (tag_after a) (tag_after b) && Bool.eqb (rerender a) (rerender b) && Bool.eqb (empty_raises a) (empty_raises b) &&
+  Bool.eqb (marker_compared a) (marker_compared b).
 Definition validb (c : case) : bool :=
   variants_eqb (cV c) current_variants && forallb res_wf (cYload c).
 Definition valid (c : case) : Prop := validb c = true.
